@@ -213,6 +213,9 @@ pub fn run_c06(ctx: &mut Ctx) {
             }
         }
     }
+    if ctx.scale == Scale::Native {
+        giant_rows(ctx, "C06");
+    }
 }
 
 // ================================================================================================
@@ -565,6 +568,120 @@ pub fn run_c07(ctx: &mut Ctx) {
                 }
                 if ctx.done() {
                     return;
+                }
+            }
+        }
+    }
+    if ctx.scale == Scale::Native {
+        giant_rows(ctx, "C07");
+    }
+}
+
+// ================================================================================================
+// Giant arrays of zero-sized elements (dimensions near usize::MAX): row operations are O(line length)
+// for them, so sums and products of real dimensions can be driven to the edge of usize.
+
+fn giant_row_shapes() -> Vec<(usize, usize)> {
+    vec![(3, usize::MAX / 3 - 2), (1, usize::MAX - 3), (2, usize::MAX / 2 - 2), ((1usize << 32) + 1, (1usize << 32) - 3), (5, (usize::MAX / 5) - 1)]
+}
+
+/// insert_row / push_row / remove_row / pop_row on giant `TooDee<()>` arrays, judged by dimensions,
+/// data length, drain length and the must-panic rule (contents are indistinguishable).
+pub fn giant_rows(ctx: &mut Ctx, prop: &str) {
+    for (c, r) in giant_row_shapes() {
+        if c > 64 && prop == "C06" {
+            // the supplied row has `c` elements: keep it small
+            continue;
+        }
+        if !ctx.case(|| format!("{} giant zero-sized array {}x{} (row operations)", prop, c, r)) {
+            continue;
+        }
+        let mk = || -> TooDee<()> { TooDee::from_vec(c, r, vec![(); c * r]) };
+        let shape_ok = |a: &TooDee<()>, wc: usize, wr: usize| a.size() == (wc, wr) && a.data().len() == wc * wr && a.rows().len() == wr && a.col(0).len() == wr;
+        if prop == "C06" {
+            for idx in [0, 1, r / 2, r - 1, r, r + 1, usize::MAX] {
+                for push in [false, true] {
+                    if push && idx != r {
+                        continue;
+                    }
+                    for len in [c, c - 1, c + 1] {
+                        if len > 64 {
+                            continue;
+                        }
+                        let mut a = mk();
+                        let valid = idx <= r && len == c;
+                        let res = catches(|| if push { a.push_row(vec![(); len]) } else { a.insert_row(idx, vec![(); len]) });
+                        ctx.count("calls", 1);
+                        ctx.count("giant_zst_checks", 1);
+                        let what = format!("insert_row(idx={}, len={}) on giant {}x{}", idx, len, c, r);
+                        match (valid, res) {
+                            (true, Ok(())) => {
+                                if !shape_ok(&a, c, r + 1) {
+                                    ctx.violation("insert_row", "shape:dims-vs-len", format!("{}: size {:?} data.len() {}", what, a.size(), a.data().len()));
+                                } else {
+                                    ctx.count("accepted", 1);
+                                    ctx.nontrivial((prop.to_string(), "giant", c, r, idx, len, push));
+                                }
+                            }
+                            (false, Err(_)) => {
+                                if !shape_ok(&a, c, r) {
+                                    ctx.violation("insert_row", "shape:dims-vs-len", format!("{} (rejected): size {:?} data.len() {}", what, a.size(), a.data().len()));
+                                } else {
+                                    ctx.count("rejected", 1);
+                                    ctx.nontrivial((prop.to_string(), "giant-rej", c, r, idx, len, push));
+                                }
+                            }
+                            (true, Err(m)) => ctx.violation("insert_row", "valid-call-panicked", format!("{}: {}", what, m)),
+                            (false, Ok(())) => ctx.violation("insert_row", "invalid-call-accepted", format!("{}: size now {:?}", what, a.size())),
+                        }
+                    }
+                }
+            }
+        } else {
+            for idx in [0, 1, r / 2, r - 1, r, r + 1, usize::MAX] {
+                for pop in [false, true] {
+                    if pop && idx != r - 1 {
+                        continue;
+                    }
+                    let mut a = mk();
+                    let valid = idx < r;
+                    let take = c.min(3);
+                    let res = catches(|| {
+                        let mut d = if pop { a.pop_row().expect("harness: pop on non-empty") } else { a.remove_row(idx) };
+                        let l0 = d.len();
+                        let mut got = 0usize;
+                        for _ in 0..take {
+                            if d.next().is_some() {
+                                got += 1;
+                            }
+                        }
+                        let l1 = d.len();
+                        (l0, got, l1)
+                    });
+                    ctx.count("calls", 1);
+                    ctx.count("giant_zst_checks", 1);
+                    let what = format!("remove_row({}) on giant {}x{}", idx, c, r);
+                    match (valid, res) {
+                        (true, Ok((l0, got, l1))) => {
+                            if (l0, got, l1) != (c, take, c - take) {
+                                ctx.violation("remove_row", "drain:len", format!("{}: drain len {} took {} then len {}", what, l0, got, l1));
+                            } else if !shape_ok(&a, c, r - 1) {
+                                ctx.violation("remove_row", "shape:dims-vs-len", format!("{}: size {:?} data.len() {}", what, a.size(), a.data().len()));
+                            } else {
+                                ctx.count("drain_items", take as u64);
+                                ctx.nontrivial((prop.to_string(), "giant", c, r, idx, pop));
+                            }
+                        }
+                        (false, Err(_)) => {
+                            if !shape_ok(&a, c, r) {
+                                ctx.violation("remove_row", "shape:dims-vs-len", format!("{} (rejected): size {:?}", what, a.size()));
+                            } else {
+                                ctx.count("rejected", 1);
+                            }
+                        }
+                        (true, Err(m)) => ctx.violation("remove_row", "valid-call-panicked", format!("{}: {}", what, m)),
+                        (false, Ok(_)) => ctx.violation("remove_row", "invalid-call-accepted", what),
+                    }
                 }
             }
         }
